@@ -58,6 +58,9 @@ def run(tier):
         rep.notes.append("%d violations in total, first %d kept" % (res["nviol"], len(res["viol"])))
         rep.violation("Truncated", "acceptor", "more violations than the acceptor keeps", {"nviol": res["nviol"], "kept": len(res["viol"])})
     selftest(recs, wd, {v["line"] for v in res["viol"]})
+    # specification growth hosted here (bootstrap contact bookkeeping): conformance, informational (MODEL-DRIFT, never a VIOLATION)
+    import growth_contact
+    growth_contact.run(rep, wd, big)
     return rep.finish(
         rule="a case = one admission decision (API level, configuration, candidate's level keys + ASN + hosting flag, outcome, "
              "error class) or one routing-table snapshot of the connection path; distinct by content; each judged by "
